@@ -13,6 +13,7 @@ It ends in one of three verdicts:
 from __future__ import annotations
 
 import ast
+import copy
 import json
 import os
 import re
@@ -177,6 +178,10 @@ class Repo:
         for m_ in self.modules.values():
             m_.repo = self
         self._fold_named_constants()
+        self._augment_assignments()
+        self._push_negations()
+        self._keyerror_tries()
+        self._scalarise_records()
         self._truthy_defaults()
         self._positional_calls()
         self._specialise_constant_params()
@@ -248,6 +253,260 @@ class Repo:
             if d is not None:
                 out.setdefault(p_.arg, d)
         return out
+
+    def _augment_assignments(self):
+        """`x = x + e` (also - * / //, x a name or a pure access path, e not a container display) is written `x += e`
+        (in place): one spelling for an update of a running value.  For the immutable values such statements are used
+        with (numbers, strings) the two are the same statement."""
+
+        def pure(e):
+            while isinstance(e, (ast.Attribute, ast.Subscript)):
+                if isinstance(e, ast.Subscript) and not isinstance(e.slice, (ast.Constant, ast.Name)):
+                    return False
+                e = e.value
+            return isinstance(e, ast.Name)
+
+        for mod in self.modules.values():
+            for f in mod.funcs.values():
+                for parent in ast.walk(f.node):
+                    for fld in ("body", "orelse", "finalbody"):
+                        lst = getattr(parent, fld, None)
+                        if not (isinstance(lst, list) and lst and isinstance(lst[0], ast.stmt)):
+                            continue
+                        for i, st in enumerate(lst):
+                            if isinstance(st, ast.Assign) and len(st.targets) == 1 and pure(st.targets[0]) and isinstance(st.value, ast.BinOp) and isinstance(st.value.op, (ast.Add, ast.Sub, ast.Mult, ast.Div, ast.FloorDiv)):
+                                v = st.value
+                                if norm(v.left) == norm(st.targets[0]) and not isinstance(v.right, (ast.List, ast.Tuple, ast.Set, ast.Dict, ast.ListComp, ast.SetComp, ast.DictComp, ast.GeneratorExp)):
+                                    lst[i] = ast.copy_location(ast.AugAssign(target=st.targets[0], op=v.op, value=v.right), st)
+
+    def _push_negations(self):
+        """Negations are pushed inward (in place): `not (a < b)` is written `a >= b` (likewise == / !=, is / is not, in / not
+        in, and the other order comparisons — the values compared in this program are totally ordered: integers, strings,
+        tuples of them, and floats that are quotients of integers), `not (A and B)` is written `not A or not B` (same
+        evaluation order and short-circuit), and a comparison with the constant on the left is mirrored
+        (`60000 < n` reads `n > 60000`)."""
+        neg = {ast.Lt: ast.GtE, ast.LtE: ast.Gt, ast.Gt: ast.LtE, ast.GtE: ast.Lt, ast.Eq: ast.NotEq, ast.NotEq: ast.Eq, ast.Is: ast.IsNot, ast.IsNot: ast.Is, ast.In: ast.NotIn, ast.NotIn: ast.In}
+        mirror = {ast.Lt: ast.Gt, ast.LtE: ast.GtE, ast.Gt: ast.Lt, ast.GtE: ast.LtE, ast.Eq: ast.Eq, ast.NotEq: ast.NotEq}
+
+        def negate(e):
+            if isinstance(e, ast.Compare) and len(e.ops) == 1 and type(e.ops[0]) in neg:
+                return ast.copy_location(ast.Compare(left=e.left, ops=[neg[type(e.ops[0])]()], comparators=e.comparators), e)
+            if isinstance(e, ast.BoolOp):
+                return ast.copy_location(ast.BoolOp(op=ast.Or() if isinstance(e.op, ast.And) else ast.And(), values=[negate(v) for v in e.values]), e)
+            if isinstance(e, ast.UnaryOp) and isinstance(e.op, ast.Not) and isinstance(e.operand, (ast.Compare, ast.BoolOp)):
+                return e.operand
+            return ast.copy_location(ast.UnaryOp(op=ast.Not(), operand=e), e)
+
+        class T(ast.NodeTransformer):
+            def visit_UnaryOp(self, n):
+                self.generic_visit(n)
+                if isinstance(n.op, ast.Not) and (isinstance(n.operand, ast.BoolOp) or (isinstance(n.operand, ast.Compare) and len(n.operand.ops) == 1 and type(n.operand.ops[0]) in neg)):
+                    return negate(n.operand)
+                return n
+
+            def visit_Compare(self, n):
+                self.generic_visit(n)
+                if len(n.ops) == 1 and type(n.ops[0]) in mirror and isinstance(n.left, ast.Constant) and not isinstance(n.comparators[0], ast.Constant):
+                    return ast.copy_location(ast.Compare(left=n.comparators[0], ops=[mirror[type(n.ops[0])]()], comparators=[n.left]), n)
+                return n
+
+        for mod in self.modules.values():
+            for f in mod.funcs.values():
+                if f.parent is not None:
+                    continue  # nested functions are rewritten with their parent
+                if any(isinstance(x, ast.UnaryOp) and isinstance(x.op, ast.Not) or isinstance(x, ast.Compare) and isinstance(x.left, ast.Constant) for x in ast.walk(f.node)):
+                    for i, st in enumerate(f.node.body):
+                        f.node.body[i] = T().visit(st)
+                    ast.fix_missing_locations(f.node)
+
+    def _keyerror_tries(self):
+        """`try: x = D[K]  except KeyError: A  else: B` over a local plain dict D (bound to `{}` / `dict()` in the function)
+        and a pure key K is written `if K not in D: A  else: x = D[K]; B` (in place): the membership test it abbreviates."""
+        for mod in self.modules.values():
+            for f in mod.funcs.values():
+                if not any(isinstance(x, ast.Try) for x in ast.walk(f.node)):
+                    continue
+                plain = set()
+                for st in walk_stmts(f.node.body):
+                    if isinstance(st, ast.Assign) and len(st.targets) == 1 and isinstance(st.targets[0], ast.Name):
+                        v = st.value
+                        if (isinstance(v, ast.Dict) and not v.keys) or (isinstance(v, ast.Call) and isinstance(v.func, ast.Name) and v.func.id == "dict" and not v.args and not v.keywords):
+                            plain.add(st.targets[0].id)
+                        else:
+                            plain.discard(st.targets[0].id) if st.targets[0].id in plain else None
+                if not plain:
+                    continue
+                for parent in ast.walk(f.node):
+                    for fld in ("body", "orelse", "finalbody"):
+                        lst = getattr(parent, fld, None)
+                        if not (isinstance(lst, list) and lst and isinstance(lst[0], ast.stmt)):
+                            continue
+                        for i, st in enumerate(lst):
+                            if not (isinstance(st, ast.Try) and len(st.body) == 1 and len(st.handlers) == 1 and not st.finalbody):
+                                continue
+                            a, h = st.body[0], st.handlers[0]
+                            if not (isinstance(a, ast.Assign) and len(a.targets) == 1 and isinstance(a.targets[0], ast.Name) and isinstance(a.value, ast.Subscript) and isinstance(a.value.value, ast.Name) and a.value.value.id in plain):
+                                continue
+                            if not (isinstance(h.type, ast.Name) and h.type.id == "KeyError" and (h.name is None or not any(isinstance(x, ast.Name) and x.id == h.name for b in h.body for x in ast.walk(b)))):
+                                continue
+                            key = a.value.slice
+                            if not all(isinstance(x, (ast.Name, ast.Attribute, ast.Constant, ast.Load, ast.Subscript, ast.Tuple)) for x in ast.walk(key)):
+                                continue
+                            test = ast.Compare(left=key, ops=[ast.NotIn()], comparators=[ast.Name(id=a.value.value.id, ctx=ast.Load())])
+                            lst[i] = ast.fix_missing_locations(ast.copy_location(ast.If(test=test, body=h.body, orelse=[a] + st.orelse), st))
+
+    def _scalarise_records(self):
+        """Scalar replacement of local records.  A local name that is only ever bound to a record of one fixed shape — a
+        dict display with constant string keys (`totals = {"next_bo": 0, "bubbles": 0}`) or an instance of a plain program
+        dataclass without methods (`tally = _Tally(next_bo=bo_start)`) — and only ever used through its fields
+        (`totals["bubbles"]`, `tally.next_bo`, read, stored or augmented; never passed, returned, iterated, aliased or
+        touched by a nested function) is replaced by one local variable per field (in place).  A group of running totals
+        kept in a private record then reads like the separate counters it stands for."""
+
+        def dataclass_fields(cnode):
+            if not any(norm(d).split("(")[0] in ("dataclass", "dataclasses.dataclass") for d in cnode.decorator_list):
+                return None
+            if cnode.bases or cnode.keywords:
+                return None
+            fields = []
+            for st in cnode.body:
+                if isinstance(st, ast.Expr) and isinstance(st.value, ast.Constant) and isinstance(st.value.value, str):
+                    continue
+                if isinstance(st, ast.Pass):
+                    continue
+                if not (isinstance(st, ast.AnnAssign) and isinstance(st.target, ast.Name)):
+                    return None
+                d = st.value
+                if isinstance(d, ast.Call) and norm(d.func) in ("field", "dataclasses.field"):
+                    kw = {k.arg: k.value for k in d.keywords}
+                    if set(kw) == {"default"}:
+                        d = kw["default"]
+                    elif set(kw) == {"default_factory"} and isinstance(kw["default_factory"], ast.Name) and kw["default_factory"].id in ("list", "dict", "set"):
+                        d = ast.Call(func=ast.Name(id=kw["default_factory"].id, ctx=ast.Load()), args=[], keywords=[])
+                    else:
+                        return None
+                elif d is not None and not (isinstance(d, ast.Constant) or (isinstance(d, ast.UnaryOp) and isinstance(d.operand, ast.Constant))):
+                    return None
+                fields.append((st.target.id, d))
+            return fields or None
+
+        def shape_of(f, value):
+            """[(field, expression)] of a record construction, or None."""
+            if isinstance(value, ast.Dict):
+                if value.keys and all(isinstance(k, ast.Constant) and isinstance(k.value, str) for k in value.keys) and len({k.value for k in value.keys}) == len(value.keys):
+                    return ("dict",), [(k.value, v) for k, v in zip(value.keys, value.values)]
+                return None
+            if isinstance(value, ast.Call) and isinstance(value.func, ast.Name):
+                c = self.class_by_dotted(f, value.func.id)
+                if c is None:
+                    return None
+                fields = dataclass_fields(self.modules[c[0]].classes[c[1]])
+                if fields is None or any(isinstance(a, ast.Starred) for a in value.args) or any(k.arg is None for k in value.keywords) or len(value.args) > len(fields):
+                    return None
+                given = {}
+                for (name, _d), a in zip(fields, value.args):
+                    given[name] = a
+                for k in value.keywords:
+                    if k.arg in given or k.arg not in dict(fields):
+                        return None
+                    given[k.arg] = k.value
+                out = []
+                for name, d in fields:
+                    e = given.get(name, d)
+                    if e is None:
+                        return None
+                    out.append((name, e))
+                return ("class",) + c, out
+            return None
+
+        def ident(var, field):
+            return var + "__" + "".join(ch if (ch.isalnum() or ch == "_") else "_%02x" % ord(ch) for ch in field)
+
+        for mod in self.modules.values():
+            for f in mod.funcs.values():
+                node = f.node
+                binds = {}
+                for st in walk_stmts(node.body):
+                    if isinstance(st, ast.Assign) and len(st.targets) == 1 and isinstance(st.targets[0], ast.Name):
+                        sh = shape_of(f, st.value)
+                        binds.setdefault(st.targets[0].id, []).append((st, sh))
+                cands = {}
+                for var, lst in binds.items():
+                    if var in f.params or any(sh is None for _st, sh in lst):
+                        continue
+                    kinds = {sh[0] for _st, sh in lst}
+                    keys = {tuple(k for k, _e in sh[1]) for _st, sh in lst}
+                    if len(kinds) == 1 and len(keys) == 1:
+                        cands[var] = (next(iter(kinds)), next(iter(keys)), {id(st): sh[1] for st, sh in lst})
+                if not cands:
+                    continue
+                parents = {}
+                for x in ast.walk(node):
+                    for c in ast.iter_child_nodes(x):
+                        parents[id(c)] = x
+                nested = set()
+                for x in ast.walk(node):
+                    if x is not node and isinstance(x, (ast.FunctionDef, ast.AsyncFunctionDef, ast.Lambda, ast.ClassDef)):
+                        nested |= {n.id for n in ast.walk(x) if isinstance(n, ast.Name)}
+                all_names = {n.id for n in ast.walk(node) if isinstance(n, ast.Name)} | set(f.params)
+                for var in list(cands):
+                    kind, keys, sites = cands[var]
+                    ok = var not in nested and not any(ident(var, k) in all_names for k in keys)
+                    for n in ast.walk(node):
+                        if not ok:
+                            break
+                        if isinstance(n, ast.Name) and n.id == var:
+                            par = parents.get(id(n))
+                            if isinstance(par, ast.Assign) and id(par) in sites and par.targets[0] is n:
+                                continue
+                            if kind[0] == "dict" and isinstance(par, ast.Subscript) and par.value is n and isinstance(par.slice, ast.Constant) and par.slice.value in keys and not isinstance(par.ctx, ast.Del):
+                                continue
+                            if kind[0] == "class" and isinstance(par, ast.Attribute) and par.value is n and par.attr in keys and not isinstance(par.ctx, ast.Del):
+                                continue
+                            ok = False
+                        elif isinstance(n, (ast.Global, ast.Nonlocal)) and var in n.names:
+                            ok = False
+                    if not ok:
+                        del cands[var]
+                if not cands:
+                    continue
+
+                class T(ast.NodeTransformer):
+                    def visit_Subscript(self, n):
+                        if isinstance(n.value, ast.Name) and n.value.id in cands and cands[n.value.id][0][0] == "dict":
+                            return ast.copy_location(ast.Name(id=ident(n.value.id, n.slice.value), ctx=n.ctx), n)
+                        return self.generic_visit(n)
+
+                    def visit_Attribute(self, n):
+                        if isinstance(n.value, ast.Name) and n.value.id in cands and cands[n.value.id][0][0] == "class":
+                            return ast.copy_location(ast.Name(id=ident(n.value.id, n.attr), ctx=n.ctx), n)
+                        return self.generic_visit(n)
+
+                def block(stmts):
+                    out = []
+                    for st in stmts:
+                        if isinstance(st, ast.Assign) and len(st.targets) == 1 and isinstance(st.targets[0], ast.Name) and st.targets[0].id in cands and id(st) in cands[st.targets[0].id][2]:
+                            var = st.targets[0].id
+                            for k, e in cands[var][2][id(st)]:
+                                e = T().visit(copy.deepcopy(e))
+                                out.append(ast.copy_location(ast.Assign(targets=[ast.Name(id=ident(var, k), ctx=ast.Store())], value=e), st))
+                            continue
+                        for fld in ("body", "orelse", "finalbody"):
+                            sub = getattr(st, fld, None)
+                            if isinstance(sub, list) and sub and isinstance(sub[0], ast.stmt):
+                                setattr(st, fld, block(sub))
+                        for h in getattr(st, "handlers", []) or []:
+                            h.body = block(h.body)
+                        for c in getattr(st, "cases", []) or []:
+                            c.body = block(c.body)
+                        out.append(st)
+                    return out
+
+                node.body = block(node.body)
+                for i, st in enumerate(node.body):
+                    if not isinstance(st, (ast.FunctionDef, ast.AsyncFunctionDef, ast.ClassDef)):
+                        node.body[i] = T().visit(st)
+                ast.fix_missing_locations(node)
 
     def _truthy_defaults(self):
         """`x if x else d` and `d if not x else x` over a pure access path x are written `x or d` (in place)."""
@@ -853,11 +1112,11 @@ def returns_to_assign(stmts, make):
     return out
 
 
-def _closed_helper(callee):
+def _closed_helper(callee, methods=False):
     """the function body reads only its parameters, its own locals and builtins (so it means the same in any module)"""
     import builtins
 
-    if callee.cls is not None:
+    if callee.cls is not None and not methods:
         return False
     if any(isinstance(x, ast.Call) and isinstance(x.func, ast.Name) and x.func.id in ("open", "print", "input", "exec", "eval") for x in ast.walk(callee.node)):
         return False  # talks to the outside world (the compression sniffer reads the file): a role of its own, kept as a call
@@ -866,6 +1125,12 @@ def _closed_helper(callee):
         if isinstance(x, ast.Name) and isinstance(x.ctx, ast.Load) and x.id not in local and not hasattr(builtins, x.id):
             return False
     return True
+
+
+_BUILTIN_METHODS = set()
+for _t in (list, dict, set, frozenset, str, bytes, tuple, int, float, object):
+    _BUILTIN_METHODS |= set(dir(_t))
+_BUILTIN_METHODS |= set(dir(__import__("io").TextIOWrapper)) | set(dir(__import__("collections").deque)) | set(dir(__import__("collections").Counter)) | {"put", "get", "join", "start", "terminate", "acquire", "release", "match", "fullmatch", "search", "group", "groups", "wait", "send", "recv", "poll"}
 
 
 def inline_tail_calls(repo, func, depth=2, keep=None):
@@ -896,12 +1161,14 @@ def inline_tail_calls(repo, func, depth=2, keep=None):
         callee = repo.resolve_call(func, call) if call is not None else None
         if callee is None or callee is func or same_func(callee, func):
             return None
-        if callee.module is not func.module and not _closed_helper(callee):
+        if callee.module is not func.module and not _closed_helper(callee, methods=isinstance(call.func, ast.Attribute) and isinstance(call.func.value, ast.Name) and callee.name != "__init__" and repo.local_class_of(func, call.func.value.id) is None and not any(isinstance(x, (ast.For, ast.While, ast.ListComp, ast.SetComp, ast.DictComp, ast.GeneratorExp)) for x in ast.walk(callee.node))):
             return None  # a helper of another module is inlined only when it refers to nothing but its parameters, locals and builtins
         recv = None
         if callee.cls != func.cls and callee.cls is not None:
             # a method of a same-module class called on a local instance (`t = Table(); t.add(x)`): self := t
-            if not (isinstance(call.func, ast.Attribute) and isinstance(call.func.value, ast.Name) and repo.local_class_of(func, call.func.value.id) == (callee.module.name, callee.cls) and callee.params and callee.params[0] == "self" and callee.name != "__init__"):
+            # (or on a local name whose method of that name cannot be a builtin container / string / file method: the call
+            # was resolved through the program-wide unique method name, `read.add_alignment(...)`)
+            if not (isinstance(call.func, ast.Attribute) and isinstance(call.func.value, ast.Name) and (repo.local_class_of(func, call.func.value.id) == (callee.module.name, callee.cls) or (call.func.attr not in _BUILTIN_METHODS and call.func.value.id not in func.module.imports)) and callee.params and callee.params[0] == "self" and callee.name != "__init__"):
                 return None
             recv = call.func.value.id
         elif callee.cls is not None and callee.cls == func.cls and isinstance(call.func, ast.Attribute) and isinstance(call.func.value, ast.Name) and call.func.value.id == "self" and callee.params and callee.params[0] == "self":
@@ -1407,7 +1674,17 @@ def unroll_const_loops(func, limit=8):
 _MUTATORS = {"append", "extend", "insert", "pop", "popitem", "remove", "clear", "update", "add", "discard", "setdefault", "sort", "reverse", "popleft", "appendleft"}
 
 
-def inline_access_aliases(func):
+def inline_pure_temps(func):
+    """inline_access_aliases, and also single-assignment temporaries holding a pure arithmetic expression over such access
+    paths (`span = rec.query_end - rec.query_start`, `n_reads = len(reads)`, `remaining = length - end`): + - * / // %,
+    unary minus, comparisons, and the builtins len / int / float / abs / str of such expressions."""
+    return inline_access_aliases(func, arith=True)
+
+
+_PURE_BUILTINS = ("len", "int", "float", "abs", "str")
+
+
+def inline_access_aliases(func, arith=False):
     """A Func in which a local alias of an access path (`node = table[rec.name]`, `tags = rec.tags`: single assignment to
     a plain name, definition made of names / attributes / subscripts only, operands assigned at most once) is replaced by
     its definition wherever it is read."""
@@ -1424,10 +1701,19 @@ def inline_access_aliases(func):
         if len(ds) != 1 or ds[0] is None or stored.get(name, 0) != 1 or name in func.params:
             continue
         d = ds[0]
-        if not isinstance(d, (ast.Subscript, ast.Attribute)):
-            continue
-        if any(not isinstance(x, (ast.Name, ast.Attribute, ast.Subscript, ast.Constant, ast.Load, ast.Tuple, ast.UnaryOp, ast.USub)) for x in ast.walk(d)):
-            continue
+        if arith and isinstance(d, (ast.BinOp, ast.UnaryOp, ast.Call, ast.Compare)) and not isinstance(d, ast.Constant):
+            allowed = (ast.Name, ast.Attribute, ast.Subscript, ast.Constant, ast.Load, ast.UnaryOp, ast.USub, ast.BinOp, ast.Add, ast.Sub, ast.Mult, ast.Div, ast.FloorDiv, ast.Mod, ast.Call, ast.Compare, ast.Lt, ast.LtE, ast.Gt, ast.GtE, ast.Eq, ast.NotEq)
+            if any(not isinstance(x, allowed) for x in ast.walk(d)):
+                continue
+            if any(isinstance(x, ast.Call) and not (isinstance(x.func, ast.Name) and x.func.id in _PURE_BUILTINS and not x.keywords and len(x.args) == 1) for x in ast.walk(d)):
+                continue
+            if any(isinstance(x, ast.Name) and x.id in _PURE_BUILTINS and stored.get(x.id, 0) for x in ast.walk(d)):
+                continue
+        else:
+            if not isinstance(d, (ast.Subscript, ast.Attribute) + ((ast.Name,) if arith else ())):
+                continue
+            if any(not isinstance(x, (ast.Name, ast.Attribute, ast.Subscript, ast.Constant, ast.Load, ast.Tuple, ast.UnaryOp, ast.USub)) for x in ast.walk(d)):
+                continue
         if any(isinstance(x, ast.Name) and stored.get(x.id, 0) > (0 if x.id in func.params else 1) for x in ast.walk(d)):
             continue
         # the aliased object must not be mutated while the alias is live: no mutation of a root of the path inside the
@@ -1469,6 +1755,248 @@ def inline_access_aliases(func):
             return node
 
     root = T().visit(copy.deepcopy(func.node))
+    ast.fix_missing_locations(root)
+    return Func(func.module, func.qualname, root, func.cls, func.parent)
+
+
+def _pure_expr(e):
+    """names, constants, attribute / subscript paths, tuples and arithmetic of such (no calls)."""
+    ok = (ast.Name, ast.Constant, ast.Attribute, ast.Subscript, ast.Tuple, ast.Load, ast.BinOp, ast.UnaryOp, ast.USub, ast.Add, ast.Sub, ast.Mult, ast.Slice)
+    return all(isinstance(x, ok) for x in ast.walk(e))
+
+
+def expand_table_dispatch(func, limit=8):
+    """A Func in which a look-up of a small literal table with constant keys by a pure key expression
+        v = TABLE.get(K)   /   v = TABLE.get(K, D)   /   v = TABLE[K]
+    (TABLE a module-level dict display, or a local name bound once to a dict display and never mutated; values are
+    constants, names, or tuples of those) becomes the case analysis it abbreviates: the rest of the block is copied under
+    `if K == k1: ... elif K == k2: ... else: ...` with v (and names unpacked from it) replaced by the row's value, tests on
+    constants (`"del" is not None`) decided and dead arms dropped.  The else arm binds None / D (`.get`) or raises
+    KeyError (`[K]`)."""
+    import copy
+
+    consts = func.module.consts
+    shadow = {x.id for x in ast.walk(func.node) if isinstance(x, ast.Name) and isinstance(x.ctx, ast.Store)} | set(func.params)
+    local_tabs = {}
+    stores = {}
+    for st in walk_stmts(func.node.body):
+        if isinstance(st, ast.Assign) and len(st.targets) == 1 and isinstance(st.targets[0], ast.Name):
+            stores.setdefault(st.targets[0].id, []).append(st.value)
+    n_store = {}
+    for x in ast.walk(func.node):
+        if isinstance(x, ast.Name) and isinstance(x.ctx, (ast.Store, ast.Del)):
+            n_store[x.id] = n_store.get(x.id, 0) + 1
+    for nm, vals in stores.items():
+        if len(vals) == 1 and n_store.get(nm) == 1 and isinstance(vals[0], ast.Dict) and nm not in func.params:
+            mutated = False
+            for x in ast.walk(func.node):
+                if isinstance(x, ast.Subscript) and isinstance(x.ctx, (ast.Store, ast.Del)) and isinstance(x.value, ast.Name) and x.value.id == nm:
+                    mutated = True
+                if isinstance(x, ast.Call) and isinstance(x.func, ast.Attribute) and x.func.attr in _MUTATORS and isinstance(x.func.value, ast.Name) and x.func.value.id == nm:
+                    mutated = True
+            if not mutated:
+                local_tabs[nm] = vals[0]
+
+    def table_of(e):
+        if not isinstance(e, ast.Name):
+            return None
+        d = local_tabs.get(e.id) if e.id in local_tabs else (consts.get(e.id) if e.id not in shadow else None)
+        if not isinstance(d, ast.Dict) or not d.keys or len(d.keys) > limit:
+            return None
+
+        def ck(k):
+            return isinstance(k, ast.Constant) or (isinstance(k, ast.Tuple) and all(isinstance(x, ast.Constant) for x in k.elts))
+
+        def cv(v):
+            return isinstance(v, (ast.Constant, ast.Name)) or (isinstance(v, ast.Tuple) and all(isinstance(x, (ast.Constant, ast.Name)) for x in v.elts))
+
+        if not all(k is not None and ck(k) for k in d.keys) or not all(cv(v) for v in d.values):
+            return None
+        if len({norm(k) for k in d.keys}) != len(d.keys):
+            return None
+        return d
+
+    def lookup(st):
+        """(var, table, key expr, default or None, 'get' | 'item') of `v = T.get(K[, D])` / `v = T[K]`"""
+        if not (isinstance(st, ast.Assign) and len(st.targets) == 1 and isinstance(st.targets[0], ast.Name)):
+            return None
+        v = st.value
+        if isinstance(v, ast.Call) and isinstance(v.func, ast.Attribute) and v.func.attr == "get" and not v.keywords and len(v.args) in (1, 2):
+            d = table_of(v.func.value)
+            if d is not None and _pure_expr(v.args[0]) and (len(v.args) == 1 or isinstance(v.args[1], (ast.Constant, ast.Name))):
+                return st.targets[0].id, d, v.args[0], (v.args[1] if len(v.args) == 2 else ast.Constant(value=None)), "get"
+        if isinstance(v, ast.Subscript) and isinstance(v.ctx, ast.Load):
+            d = table_of(v.value)
+            if d is not None and _pure_expr(v.slice) and not isinstance(v.slice, (ast.Constant, ast.Slice)):
+                return st.targets[0].id, d, v.slice, None, "item"
+        return None
+
+    class Sub(ast.NodeTransformer):
+        def __init__(self, env):
+            self.env = env
+
+        def visit_Name(self, n):
+            if isinstance(n.ctx, ast.Load) and n.id in self.env:
+                return ast.copy_location(copy.deepcopy(self.env[n.id]), n)
+            return n
+
+    class Fold(ast.NodeTransformer):
+        def visit_Compare(self, n):
+            self.generic_visit(n)
+            if len(n.ops) == 1 and isinstance(n.ops[0], (ast.Is, ast.IsNot)) and isinstance(n.left, (ast.Constant, ast.Tuple)) and isinstance(n.comparators[0], ast.Constant) and n.comparators[0].value is None:
+                same = isinstance(n.left, ast.Constant) and n.left.value is None
+                return ast.copy_location(ast.Constant(value=same if isinstance(n.ops[0], ast.Is) else not same), n)
+            return n
+
+        def visit_UnaryOp(self, n):
+            self.generic_visit(n)
+            if isinstance(n.op, ast.Not) and isinstance(n.operand, ast.Constant) and isinstance(n.operand.value, bool):
+                return ast.copy_location(ast.Constant(value=not n.operand.value), n)
+            return n
+
+        def visit_If(self, n):
+            self.generic_visit(n)
+            if isinstance(n.test, ast.Constant) and isinstance(n.test.value, bool):
+                arm = n.body if n.test.value else n.orelse
+                return arm if arm else ast.copy_location(ast.Pass(), n)
+            return n
+
+    def specialise(rest, var, val):
+        """copy of `rest` with var := val (when var is not stored again), unpackings of it split, constants propagated"""
+        rest = copy.deepcopy(rest)
+        env = {}
+        restored = {x.id for r in rest for x in ast.walk(r) if isinstance(x, ast.Name) and isinstance(x.ctx, (ast.Store, ast.Del))}
+        if var not in restored:
+            env[var] = val
+        out = []
+        for r in rest:
+            r = Sub(env).visit(r) if env else r
+            if isinstance(r, ast.Assign) and len(r.targets) == 1 and isinstance(r.targets[0], ast.Tuple) and isinstance(r.value, ast.Tuple) and len(r.targets[0].elts) == len(r.value.elts) and all(isinstance(t, ast.Name) for t in r.targets[0].elts) and all(isinstance(x, (ast.Constant, ast.Name)) for x in r.value.elts):
+                for t, x in zip(r.targets[0].elts, r.value.elts):
+                    a = ast.copy_location(ast.Assign(targets=[ast.Name(id=t.id, ctx=ast.Store())], value=x), r)
+                    out.append(a)
+                    if sum(1 for q in rest for y in ast.walk(q) if isinstance(y, ast.Name) and y.id == t.id and isinstance(y.ctx, (ast.Store, ast.Del))) == 1 and isinstance(x, ast.Constant):
+                        env[t.id] = x
+                continue
+            out.append(r)
+        res = []
+        for r in out:
+            r2 = Fold().visit(r)
+            if isinstance(r2, list):
+                res.extend(r2)
+            else:
+                res.append(r2)
+        return res
+
+    changed = [False]
+
+    def block(stmts):
+        stmts = list(stmts)
+        for i, st in enumerate(stmts):
+            lk = lookup(st)
+            if lk is None:
+                continue
+            var, d, key, default, kind = lk
+            rest = stmts[i + 1 :]
+            if sum(len(list(ast.walk(r))) for r in rest) > 600:
+                continue
+            chain = None
+            tail = None
+            if kind == "get":
+                tail = [ast.copy_location(ast.Assign(targets=[ast.Name(id=var, ctx=ast.Store())], value=copy.deepcopy(default)), st)] + specialise(rest, var, default)
+            else:
+                tail = [ast.copy_location(ast.Raise(exc=ast.Call(func=ast.Name(id="KeyError", ctx=ast.Load()), args=[copy.deepcopy(key)], keywords=[]), cause=None), st)]
+            for k, v in reversed(list(zip(d.keys, d.values))):
+                test = ast.Compare(left=copy.deepcopy(key), ops=[ast.Eq()], comparators=[copy.deepcopy(k)])
+                body = [ast.copy_location(ast.Assign(targets=[ast.Name(id=var, ctx=ast.Store())], value=copy.deepcopy(v)), st)] + specialise(rest, var, v)
+                chain = ast.copy_location(ast.If(test=test, body=body, orelse=[chain] if chain is not None else tail), st)
+            changed[0] = True
+            new = stmts[:i] + [chain]
+            return block(new)
+        for st in stmts:
+            for fld in ("body", "orelse", "finalbody"):
+                lst = getattr(st, fld, None)
+                if isinstance(lst, list) and lst and isinstance(lst[0], ast.stmt) and not isinstance(st, (ast.FunctionDef, ast.AsyncFunctionDef, ast.ClassDef)):
+                    setattr(st, fld, block(lst))
+            if isinstance(st, ast.Try):
+                for h in st.handlers:
+                    h.body = block(h.body)
+        return stmts
+
+    root = copy.deepcopy(func.node)
+    # tables of the copy: re-resolve on the copy so that identity of statements is consistent
+    saved = func.node
+    try:
+        root.body = block(root.body)
+    finally:
+        func.node = saved
+    if not changed[0]:
+        return func
+    ast.fix_missing_locations(root)
+    out = Func(func.module, func.qualname, root, func.cls, func.parent)
+    return scalarise_counters(out)
+
+
+def scalarise_counters(func):
+    """A Func in which a local `c = Counter()` (collections.Counter, no arguments) that is only ever used as `c[<constant>]`
+    is replaced by one variable per key, each starting at 0 (a missing key of a Counter reads as 0)."""
+    import copy
+
+    cands = {}
+    for st in walk_stmts(func.node.body):
+        if isinstance(st, ast.Assign) and len(st.targets) == 1 and isinstance(st.targets[0], ast.Name) and isinstance(st.value, ast.Call) and norm(st.value.func) in ("Counter", "collections.Counter") and not st.value.args and not st.value.keywords:
+            cands.setdefault(st.targets[0].id, []).append(st)
+    if not cands:
+        return func
+    parents = parents_map(func.node)
+    keys = {}
+    for var in list(cands):
+        ks = []
+        ok = var not in func.params
+        for n in ast.walk(func.node):
+            if isinstance(n, ast.Name) and n.id == var:
+                par = parents.get(n)
+                if isinstance(par, ast.Assign) and any(par is st for st in cands[var]) and par.targets[0] is n:
+                    continue
+                if isinstance(par, ast.Subscript) and par.value is n and isinstance(par.slice, ast.Constant) and isinstance(par.slice.value, (str, int)) and not isinstance(par.ctx, ast.Del):
+                    if par.slice.value not in ks:
+                        ks.append(par.slice.value)
+                    continue
+                ok = False
+        if ok and ks:
+            keys[var] = ks
+    if not keys:
+        return func
+
+    def ident(var, k):
+        return var + "__" + "".join(ch if (ch.isalnum() or ch == "_") else "_%02x" % ord(ch) for ch in str(k))
+
+    root = copy.deepcopy(func.node)
+
+    class T(ast.NodeTransformer):
+        def visit_Subscript(self, n):
+            if isinstance(n.value, ast.Name) and n.value.id in keys and isinstance(n.slice, ast.Constant):
+                return ast.copy_location(ast.Name(id=ident(n.value.id, n.slice.value), ctx=n.ctx), n)
+            return self.generic_visit(n)
+
+    def block(stmts):
+        out = []
+        for st in stmts:
+            if isinstance(st, ast.Assign) and len(st.targets) == 1 and isinstance(st.targets[0], ast.Name) and st.targets[0].id in keys and isinstance(st.value, ast.Call) and norm(st.value.func) in ("Counter", "collections.Counter"):
+                for k in keys[st.targets[0].id]:
+                    out.append(ast.copy_location(ast.Assign(targets=[ast.Name(id=ident(st.targets[0].id, k), ctx=ast.Store())], value=ast.Constant(value=0)), st))
+                continue
+            for fld in ("body", "orelse", "finalbody"):
+                lst = getattr(st, fld, None)
+                if isinstance(lst, list) and lst and isinstance(lst[0], ast.stmt) and not isinstance(st, (ast.FunctionDef, ast.AsyncFunctionDef, ast.ClassDef)):
+                    setattr(st, fld, block(lst))
+            if isinstance(st, ast.Try):
+                for h in st.handlers:
+                    h.body = block(h.body)
+            out.append(T().visit(st))
+        return out
+
+    root.body = block(root.body)
     ast.fix_missing_locations(root)
     return Func(func.module, func.qualname, root, func.cls, func.parent)
 
@@ -2512,6 +3040,74 @@ def plain_statements(func):
     return Func(func.module, func.qualname, node, func.cls, func.parent)
 
 
+def reaching_def(func_node, stmt, name):
+    """The expression bound to `name` by the nearest preceding plain / parallel-tuple assignment in the statement list that
+    contains `stmt` (or a list enclosing it), provided nothing in between can rebind the name; None when there is none."""
+    chain = []
+
+    def find(stmts, trail):
+        for i, st in enumerate(stmts):
+            if st is stmt:
+                chain.extend(trail + [(stmts, i)])
+                return True
+            for fld in ("body", "orelse", "finalbody"):
+                lst = getattr(st, fld, None)
+                if isinstance(lst, list) and lst and isinstance(lst[0], ast.stmt) and find(lst, trail + [(stmts, i)]):
+                    return True
+            for h in getattr(st, "handlers", []) or []:
+                if find(h.body, trail + [(stmts, i)]):
+                    return True
+        return False
+
+    if not find(func_node.body, []):
+        return None
+    for stmts, i in reversed(chain):
+        for st in reversed(stmts[:i]):
+            stored = {x.id for x in ast.walk(st) if isinstance(x, ast.Name) and isinstance(x.ctx, (ast.Store, ast.Del))}
+            if name not in stored:
+                continue
+            if isinstance(st, ast.Assign) and len(st.targets) == 1:
+                t = st.targets[0]
+                if isinstance(t, ast.Name) and t.id == name:
+                    return st.value
+                if isinstance(t, ast.Tuple) and isinstance(st.value, ast.Tuple) and len(t.elts) == len(st.value.elts):
+                    for e, v in zip(t.elts, st.value.elts):
+                        if isinstance(e, ast.Name) and e.id == name:
+                            return v
+            return None
+        # entering an enclosing list: a loop around us could rebind the name later in its body
+        owner = stmts[i]
+        if isinstance(owner, (ast.For, ast.While)) and any(isinstance(x, ast.Name) and x.id == name and isinstance(x.ctx, (ast.Store, ast.Del)) for x in ast.walk(owner)):
+            return None
+    return None
+
+
+def own_loop_jumps(body):
+    """continue / break statements in `body` that belong to the loop whose body this is (not to a nested loop)."""
+    out = []
+
+    def go(stmts):
+        for st in stmts:
+            if isinstance(st, (ast.Continue, ast.Break)):
+                out.append(st)
+            elif isinstance(st, (ast.For, ast.While)):
+                go(st.orelse)
+            elif isinstance(st, (ast.FunctionDef, ast.AsyncFunctionDef, ast.ClassDef)):
+                continue
+            else:
+                for fld in ("body", "orelse", "finalbody"):
+                    lst = getattr(st, fld, None)
+                    if isinstance(lst, list) and lst and isinstance(lst[0], ast.stmt):
+                        go(lst)
+                for h in getattr(st, "handlers", []) or []:
+                    go(h.body)
+                for c in getattr(st, "cases", []) or []:
+                    go(c.body)
+
+    go(body)
+    return out
+
+
 def make_resolver(stmts, depth=4):
     """res(expr) -> expr with the names that are bound exactly once in `stmts` (plain assignments; tuple targets unpacked
     from a name / subscript are read as its elements) replaced by their definitions, repeatedly.  Returns an AST."""
@@ -2539,6 +3135,12 @@ def make_resolver(stmts, depth=4):
         def visit_Name(self, n):
             if isinstance(n.ctx, ast.Load) and n.id in env:
                 return copy.deepcopy(env[n.id])
+            return n
+
+        def visit_Subscript(self, n):
+            self.generic_visit(n)
+            if isinstance(n.value, (ast.Tuple, ast.List)) and isinstance(n.slice, ast.Constant) and isinstance(n.slice.value, int) and not isinstance(n.slice.value, bool) and -len(n.value.elts) <= n.slice.value < len(n.value.elts) and not any(isinstance(x, ast.Starred) for x in n.value.elts):
+                return n.value.elts[n.slice.value]
             return n
 
     def res(e):
